@@ -26,7 +26,9 @@ EXPLANATION = (
     "the unreachable!() lookups, zero offset before repeat, table-uninitialised before state init, Huffman "
     "completeness before table fill); (g) slice bounds in the parsing functions are entailed by dominating length "
     "checks (linear entailment) or listed with a reviewed reason. "
-    "Not decided: absence of implicit index/overflow panics in general (about 640 sites), time bounds.")
+    "(h) calls of std functions that panic for some argument values (ilog*, split_at, copy_from_slice, ...) and every "
+    "8/16-bit addition, subtraction, multiplication or shift on the decode path are reviewed sites (a product of small-looking "
+    "numbers in u8 is where a valid frame starts to panic or wrap). Not decided: absence of implicit index/overflow panics in general (about 640 sites), time bounds.")
 ASSUMPTIONS = ["reviewed reasons in tables/c03.json (one line each) are trusted; 'arith' entries are hand arguments, not machine-checked",
                "std/alloc functions do not panic except on allocation failure"]
 
@@ -204,6 +206,12 @@ def freeze(ctx, cfgs):
     out["functions"] = sorted(out["functions"])
     out["slices"] = dict(SLICE_REASONS)
     return out
+
+
+# "never reads or writes outside its allocations": the unsafe output window (C04), reported here as C03.window
+INCLUDES = [
+    ("c04", "C03.window", None, 60),
+]
 
 
 def run(ctx):
